@@ -575,3 +575,41 @@ def _open_sync(n):
 
 
 _open_sync(2)
+
+
+# ------------------------------------------------------------------------- built-in swarm-wide action: reset_estimators
+
+def _reset_estimators(n):
+    @contract('C19', 'reset_estimators.n%d' % n, [SWM + ':Swarm.reset_estimators', SWM + ':Swarm._Swarm__reset_estimator', SWM + ':Swarm.parallel_safe',
+                                                 SWM + ':Swarm._thread_function_wrapper'],
+              clause=P_PAR + ' - the library\'s own swarm-wide action reset_estimators: the estimator reset (resetEstimation 1, then 0, then the wait '
+                             'for a stable position) runs exactly once per member, and the call raises iff the reset of at least one member raised',
+              bounded=(B_N % n) + '; the wait for a stable position (SyncLogger on the variance log) is a stub that fails for a chosen subset')
+    def k(c):
+        c.model_threads(SWM)
+        c.virtual_time()
+        fails = [c.bool('act_fail%d' % i) for i in range(n)]
+        members = []
+        for i in range(n):
+            cf = c.ext('cf%d' % i)
+            members.append(c.ext('scf%d' % i, attrs={'cf': cf}))
+        swarm, uris, scfs = new_swarm(c, n, members=members)
+
+        def wait(I, args, kwargs):
+            i = [k for k, s in enumerate(scfs) if s is args[-1]][0]
+            if decide(I, fails[i]):
+                c.raiser('RuntimeError', 'act:%d' % i)()
+        c.patch(SWM + ':Swarm._Swarm__wait_for_position_estimator', c.ext('wait_stable', returns={'()': wait}))
+        c.call((swarm, 'reset_estimators'))
+        for i in range(n):
+            c.ensure('member-%d-reset-once-1-then-0' % i,
+                     "[e[1] for e in sent('cf%d.param.set_value')] == [('kalman.resetEstimation', '1'), ('kalman.resetEstimation', '0')]" % i)
+            c.ensure('member-%d-waited-for-once' % i, "len([e for e in sent('wait_stable') if e[1][-1] is scf%d]) == 1" % i)
+        c.ensure('raises-iff-some-reset-raised', 'iff(raised is not None, %s)' % any_fail(n))
+        if c.get('raised') is not None:
+            c.ensure('chains-one-of-the-errors-raised-by-this-call', cause_is_raised_here(n))
+    return k
+
+
+for _n in (1, 2, 3):
+    _reset_estimators(_n)
